@@ -5,7 +5,7 @@ from props import common
 ID = "C19"
 LEVEL = "proof"
 SIDECARS = ["contracts.tensor", "contracts.equation", "contracts.defaults"]
-TARGETS = ["Equation.__get_tensor_ranks", "LoopOrder.__default_loop_order", "LoopOrder.add", "Mapping.__init__",
+TARGETS = ["Equation.__get_tensor_ranks", "Equation.__build_einsum_ranks", "LoopOrder.__default_loop_order", "LoopOrder.add", "Mapping.__init__",
            "Partitioning.__update_ranks"]
 EXPLANATION = (
     "Proved on the real functions: Equation.__get_tensor_ranks returns the ranks of an access in the order written "
